@@ -8,6 +8,7 @@
 From Coq Require Import List NArith ZArith Bool.
 From Tongo Require Import Lib.Bits Lib.Res Model.BitString Model.BitStringD Model.JsonText Model.Json
   Proofs.BitStringR  Proofs.JsonTextP Proofs.JsonValidP Proofs.JsonP Proofs.JsonAddrP Proofs.JsonAcctP Proofs.C20CellP.
+From Tongo Require Model.Address.
 Import ListNotations.
 Local Open Scope N_scope.
 
@@ -182,6 +183,18 @@ Theorem C20_account_roundtrip :
   exists doc, print_account wc addr = Ok doc /\ parse_account_json doc = Ok (wc, addr)
               /\ json_number_or_plain_string doc.
 Proof. exact account_roundtrip. Qed.
+
+(* the decoder accepts more texts than the encoder emits (user-friendly base64
+   forms besides the raw one); a text without a colon whose base64 content is
+   not EXACTLY 36 bytes -- a genuine address with groups appended, or a
+   shortened one -- is an error (the design reading the first 36 bytes of a
+   longer text is refuted in Proofs/C20History.v) *)
+Theorem C20_account_wrong_length_rejected :
+  forall s bs,
+  Address.split_colon s = None ->
+  Address.b64url_decode_string (map Address.plus_slash s) = Some bs -> length bs <> 36%nat ->
+  Address.parse_account s = Err EOther.
+Proof. exact parse_account_wrong_length. Qed.
 
 (** * 2. the printed form is valid JSON: a number, or a string of characters
       that need no escape *)
